@@ -699,6 +699,20 @@ def closure_context(fb, parent, closure_key):
     return src, cap
 
 
+def closure_source_leaves(fb, parent, closure_key):
+    """every leaf (calls included) of the receiver of the adaptor call the closure is handed to"""
+    out = set()
+    for blk in parent["blocks"]:
+        for st in blk["s"]:
+            r = st["r"]
+            if r.get("k") == "agg" and r.get("ak") == "closure" and r.get("closure") == closure_key:
+                cl = st["d"]["l"]
+                for c in fb.calls(parent):
+                    if c.args and any(a.get("k") in ("copy", "move") and a["pl"]["l"] == cl for a in c.args[1:]):
+                        out |= operand_leaves(fb, parent, c.args[0])
+    return out
+
+
 def deep_aggregates(fb, body, adt_regex):
     """aggregates of `body` and of the closures it creates (one level): [(owner body, statement)] in source-line order"""
     out = [(body, s) for _, s in aggregates(body, adt_regex)]
